@@ -4,3 +4,8 @@ claim("C14", "exploration",
  "Compiles every single-gate circuit (each gate x each ordered tuple of distinct qubits, n=1..5), every two-gate circuit over a reduced gate set on n<=3, and 1.5k (quick) / 80k (thorough) random 2..12-gate circuits with the real QasmToBmMatrices (direct BasmBody, and a sample through the .bmq builder path used by cmd/bmqsim); compares the product of emitted matrices with an independent complex128 reference, M*M^dagger with I, and the software simulation of every basis state with the reference column. Failing circuits are shrunk gate by gate.",
  "Trusted: textbook gate matrices and the 30-line 'apply gate to named qubits' routine in cmd/c14; float32 tolerances 1e-4 / 1e-5. Global phase not quotiented.",
  "§3 C14")
+claim("C17", "exploration",
+ "runtime monitor: goroutine-profile and heap-object deltas over batches of growing size (resource-growth oracle)",
+ "Runs batches of 1, 8, 64, 256 (thorough: ..1024) calls of SinglePipelineSimulate and Fitness_default, sequentially and from 8 concurrent callers, on chains of 1..6 processors; after each batch reads NumGoroutine, the goroutine profile grouped by creation site and HeapObjects. Violation iff the growth for the largest batch exceeds that of the single-call batch by more than 4 goroutines, or the heap grows by more than 64 objects per call; the witness names the leaking creation sites.",
+ "Fitness_default can only be driven with an empty input simbox (it passes a nil Config that SimConfig.Init dereferences as soon as a rule exists). Thresholds are constants independent of n; settle = 5 GC/yield rounds.",
+ "§3 C17")
